@@ -192,6 +192,13 @@ read here is index / selection logic, not arithmetic, so values carry a type (Ra
   models a missing one as the constant 1); `return table[mask]` is read as the predicate "the row is kept";
 * a yielded table slice `wrapper(table.iloc[a:b])` is read as the pair of positions `(a, some b)`, `table.iloc[a:]` as
   `(a, none)` -- which rows those positions select is the model's `slice` / `drop`.
+* index-set scatter (added for vary._tumor_boost / zygosity_from_freq): `idx = np.nonzero(mask)[0]` names the positions
+  where `mask` holds and `~mask` is its negation; `out[idx] = e` (also `out[mask] = e`, `out[a < b] = e`) means "where
+  the mask holds, out becomes e, elsewhere it stays", with `x.take(idx)` inside `e` read as x at those same positions
+  (only the SAME index set as the target's is accepted); `np.zeros_like(x)` is 0, `np.repeat(c, n)` is c,
+  `pd.Series(e)` and `e.values` are e -- all elementwise;
+* a local listed in `opaque` keeps its name as a parameter: the assignment that binds it (a column lookup such as
+  `vals = self[freq_key].values`) is skipped.
 """
 from __future__ import annotations
 
@@ -223,7 +230,7 @@ def _num_literal(e):
 
 class Fn:
     def __init__(self, fn: ast.FunctionDef, given=(), absent=(), default_on_raise=None, rename=None, callees=None,
-                 pieces=False, atoms=None, num="Rat", columns=False, sort_params=False, bare_columns=False):
+                 pieces=False, atoms=None, num="Rat", columns=False, sort_params=False, bare_columns=False, opaque=()):
         self.bare_columns = bare_columns   # read `tbl["name"]` as the parameter `name`, masks built with | & ~ (C14 level functions)
         self.pieces = pieces          # the additional reading rules for pieces of larger functions
         self.atoms = atoms or {}      # verbatim source text -> parameter name (elementwise reading)
@@ -232,6 +239,8 @@ class Fn:
         self.columns = columns          # read `table["col"]` as the parameter `col_<col>` (C17 additions)
         self.sort_params = sort_params  # discovered parameters in alphabetical order instead of order of first use
         self.fparams = []               # opaque function parameters (`sqrt`, `norm_cdf`) in a fixed order
+        self.opaque = set(opaque)    # locals that stay parameters (their binding assignment is skipped)
+        self._under = None           # the mask of the scatter assignment being read
         self.fn = fn
         self.given = set(given)      # optional parameters known to be supplied (not None)
         self.absent = set(absent)    # optional parameters known to be None
@@ -375,7 +384,7 @@ class Fn:
                     and isinstance(e.slice.value, str) and e.slice.value.isidentifier():
                 return self.param(e.value.id + "_" + e.slice.value, base=e.value.id)
             raise Untranslatable("subscript " + ast.unparse(e))
-        if isinstance(e, ast.Attribute) and e.attr == "values" and isinstance(e.value, ast.Subscript):
+        if isinstance(e, ast.Attribute) and e.attr == "values":
             return self.expr(e.value, env)
         if isinstance(e, ast.UnaryOp):
             if isinstance(e.op, ast.USub):
@@ -453,6 +462,20 @@ class Fn:
                 return f"({self.expr(args[0], env)} ^ 2)"
             if f == "np.negative" and len(args) == 1:
                 return f"(-{self.expr(args[0], env)})"
+            if isinstance(e.func, ast.Attribute) and e.func.attr == "take" and len(args) == 1 and not e.keywords \
+                    and isinstance(args[0], ast.Name):
+                m = env.get(args[0].id, "")
+                if not m.startswith("MASK:") or self._under is None or m[5:] != self._under:
+                    raise Untranslatable("take() outside a scatter over the same index set: " + ast.unparse(e))
+                return self.expr(e.func.value, env)
+            if f in ("pd.Series", "pandas.Series", "np.asarray", "np.array") and len(args) == 1 and not e.keywords:
+                return self.expr(args[0], env)
+            if f == "np.zeros_like" and len(args) == 1 and not e.keywords:
+                return _rat(0)
+            if f == "np.ones_like" and len(args) == 1 and not e.keywords:
+                return _rat(1)
+            if f == "np.repeat" and len(args) == 2 and not e.keywords:
+                return self.expr(args[0], env)
             if f == "np.where" and len(args) == 3:
                 return f"(if {self.cond(args[0], env)} then {self.expr(args[1], env)} else {self.expr(args[2], env)})"
             if f in ("np.zeros", "np.zeros_like") and len(args) == 1 and not e.keywords:
@@ -578,6 +601,8 @@ class Fn:
         if self.bare_columns and isinstance(e, ast.BinOp) and isinstance(e.op, (ast.BitOr, ast.BitAnd)):
             op = " ∨ " if isinstance(e.op, ast.BitOr) else " ∧ "
             return "(" + self.cond(e.left, env) + op + self.cond(e.right, env) + ")"
+        if isinstance(e, ast.UnaryOp) and isinstance(e.op, ast.Invert):
+            return f"(¬ {self.mask(e.operand, env)})"
         if isinstance(e, ast.Compare):
             parts = []
             left = e.left
@@ -612,6 +637,35 @@ class Fn:
             return "True" if e.value else "False"
         raise Untranslatable("condition " + ast.unparse(e))
 
+    def mask(self, e, env):
+        """a boolean array: a comparison, a name bound to one, `~m`, or the index set `np.nonzero(m)[0]`"""
+        if isinstance(e, ast.Name):
+            m = env.get(e.id, "")
+            if m.startswith("MASK:"):
+                return m[5:]
+            raise Untranslatable("not a mask: " + e.id)
+        if isinstance(e, ast.Compare):
+            return self.cond(e, env)
+        if isinstance(e, ast.UnaryOp) and isinstance(e.op, ast.Invert):
+            return f"(¬ {self.mask(e.operand, env)})"
+        if isinstance(e, ast.BinOp) and isinstance(e.op, (ast.BitAnd, ast.BitOr)):
+            op = " ∧ " if isinstance(e.op, ast.BitAnd) else " ∨ "
+            return "(" + self.mask(e.left, env) + op + self.mask(e.right, env) + ")"
+        if isinstance(e, ast.Subscript) and isinstance(e.slice, ast.Constant) and e.slice.value == 0 \
+                and isinstance(e.value, ast.Call) and ast.unparse(e.value.func) in ("np.nonzero", "np.flatnonzero", "np.where") \
+                and len(e.value.args) == 1 and not e.value.keywords:
+            return self.mask(e.value.args[0], env)
+        if isinstance(e, ast.Call) and ast.unparse(e.func) == "np.flatnonzero" and len(e.args) == 1:
+            return self.mask(e.args[0], env)
+        raise Untranslatable("not a mask: " + ast.unparse(e))
+
+    def _is_mask(self, e, env):
+        try:
+            self.mask(e, env)
+            return True
+        except Untranslatable:
+            return False
+
     # -- statements ------------------------------------------------------------------------------
     @staticmethod
     def _only_raises(stmts):
@@ -638,11 +692,19 @@ class Fn:
             return self.default_on_raise
         if isinstance(s, ast.Assign) and len(s.targets) == 1:
             t = s.targets[0]
+            if isinstance(t, ast.Name) and t.id in self.opaque:
+                self.param(t.id)
+                return self.block(rest, env)
             if isinstance(t, ast.Name):
                 # a mask (comparison) assigned to a name is kept as a condition
                 if isinstance(s.value, ast.Compare) or self.is_mask(s.value, env):
                     env = dict(env)
                     env[t.id] = "MASK:" + self.cond(s.value, env)
+                    return self.block(rest, env)
+                # ... and so are `~mask` and the index set `np.nonzero(mask)[0]`
+                if not isinstance(s.value, ast.Name) and self._is_mask(s.value, env):
+                    env = dict(env)
+                    env[t.id] = "MASK:" + self.mask(s.value, env)
                     return self.block(rest, env)
                 env = dict(env)
                 env[t.id] = self.expr(s.value, env)
@@ -653,6 +715,18 @@ class Fn:
                 c = self.cond(t.slice, env)
                 env = dict(env)
                 env[t.value.id] = f"(if {c} then {self.expr(s.value, env)} else {env[t.value.id]})"
+                return self.block(rest, env)
+            if isinstance(t, ast.Subscript) and isinstance(t.value, ast.Name) and self._is_mask(t.slice, env):
+                # scatter: where the mask holds the array takes the new value
+                m = self.mask(t.slice, env)
+                env = dict(env)
+                cur = self.expr(t.value, env)
+                prev, self._under = self._under, m
+                try:
+                    new = self.expr(s.value, env)
+                finally:
+                    self._under = prev
+                env[t.value.id] = f"(if {m} then {new} else {cur})"
                 return self.block(rest, env)
             if isinstance(t, ast.Subscript) and isinstance(t.value, ast.Name) and isinstance(t.slice, ast.Name):
                 mask = env.get(t.slice.id, "")
